@@ -602,6 +602,10 @@ func startC05Worker(dir string, id int) (*c05Proc, error) {
 			return nil, err
 		}
 	}
+	// second pass of the design: every 4th worker is the -race build (race detector + checkptr)
+	if r := os.Getenv("VERIF_VRUN_RACE"); r != "" && id%4 == 3 && id < 90 {
+		exe = r
+	}
 	wdir := filepath.Join(dir, fmt.Sprintf("w%d", id))
 	os.MkdirAll(wdir, 0o755)
 	cmd := exec.Command(exe, "worker", "c05", wdir)
@@ -839,6 +843,9 @@ func C05(run *hx.Run) {
 				switch st {
 				case "ok":
 					handleReply(pd, rep)
+					if os.Getenv("VERIF_VRUN_RACE") != "" && wi%4 == 3 {
+						run.Count("cases_run_under_race_detector_and_checkptr", 1)
+					}
 				case "died":
 					stderr := w.errBuf.String()
 					site := panicSite(stderr)
